@@ -18,7 +18,7 @@ EXPLANATION = (
     "peer answers the oldest unanswered request of a connection with a complete keep-alive response echoing that "
     "request's path - optionally followed by surplus bytes (a second response / garbage; also with the header block delivered first and body + surplus in one segment), optionally truncated, "
     "optionally with Connection: close -, peer sends an unsolicited complete response - or only the beginning of one - on an idle connection, peer closes "
-    "the connection, caller cancels}. Every response delivered to a caller must echo that caller's own request path "
+    "the connection, caller cancels; a tracing hook may suspend between taking a connection out of the pool and starting the request on it}. Every response delivered to a caller must echo that caller's own request path "
     "(or the call fails); a connection that saw surplus or unsolicited bytes, a truncated body, an error or a cancel must "
     "not serve a later request; connections are only reused for the same host, port and scheme.")
 ASSUMPTIONS = [
@@ -61,8 +61,19 @@ def history(ctx, k=5, first=(), hosts=("a", "b")):
                 conns[-1]["greeted"] = True
             return proto
 
+    # a tracing hook that suspends between "connection taken out of the pool" and "request started"
+    hook_blocks = ctx.flag("reuse_hook_suspends")
+    gate = {"fut": None}
+
+    async def on_reuse(session_, trace_ctx, params):
+        if hook_blocks:
+            gate["fut"] = loop.create_future()
+            await gate["fut"]
+
     async def mk():
-        return aiohttp.ClientSession(connector=Conn(limit=10), cookie_jar=aiohttp.DummyCookieJar())
+        tc = aiohttp.TraceConfig()
+        tc.on_connection_reuseconn.append(on_reuse)
+        return aiohttp.ClientSession(connector=Conn(limit=10), cookie_jar=aiohttp.DummyCookieJar(), trace_configs=[tc])
 
     session = loop.run_until_complete(mk())
     calls = []  # dict(task, path, host)
@@ -143,6 +154,8 @@ def history(ctx, k=5, first=(), hosts=("a", "b")):
         for j, call in enumerate(calls):
             if not call["task"].done():
                 enabled.append(("cancel", j))
+        if gate["fut"] is not None and not gate["fut"].done():
+            enabled.append(("release-reuse-hook",))
         if conns and nadv < 2:
             # virtual time passes (keep-alive bookkeeping of the pool runs on a 15 s timer)
             enabled += [("advance", 10), ("advance", 6)]
@@ -193,6 +206,8 @@ def history(ctx, k=5, first=(), hosts=("a", "b")):
             c = conns[op[1]]
             c["proto"].data_received(b"HTTP/1.1 404 Stale\r\nX-Stale: ")
             taint(c, "unsolicited-partial-message-while-idle")
+        elif op[0] == "release-reuse-hook":
+            gate["fut"].set_result(None)
         elif op[0] == "peer-eof":
             c = conns[op[1]]
             c["proto"].connection_lost(None)
@@ -212,6 +227,9 @@ def history(ctx, k=5, first=(), hosts=("a", "b")):
         r = check()
         if r:
             return r
+    if gate["fut"] is not None and not gate["fut"].done():
+        gate["fut"].set_result(None)
+        loop.run_ready()
     # wind down: answer everything outstanding correctly, then close
     for _ in range(6):
         progressed = False
